@@ -69,6 +69,107 @@ class Spec:
         return eval(src, dict(self.env, **extra))
 
 
+def gen_value(t, rnd, ty):
+    """A small random value of contract type t (None if the type has no concrete generator)."""
+    if isinstance(t, ty._Int):
+        return rnd.randint(-2, 5)
+    if isinstance(t, ty._Bool):
+        return rnd.random() < 0.5
+    if isinstance(t, ty.Opt):
+        return None if rnd.random() < 0.3 else gen_value(t.elt, rnd, ty)
+    if isinstance(t, ty.Seq):
+        n = rnd.randint(0, 3)
+        vals = [gen_value(t.elt, rnd, ty) for _ in range(n)]
+        return None if any(v is None and not isinstance(t.elt, ty.Opt) for v in vals) else tuple(vals)
+    if isinstance(t, ty.List) and not isinstance(t, ty.Deque):
+        n = rnd.randint(0, 4)
+        vals = [gen_value(t.elt, rnd, ty) for _ in range(n)]
+        return None if any(v is None and not isinstance(t.elt, ty.Opt) for v in vals) else list(vals)
+    return "NOGEN"
+
+
+def check_once(c, fn, args, sp_cls):
+    """Run the real function on args and evaluate the contract; returns (failures, observed)."""
+    import copy
+    sp = sp_cls(dict(args))
+    for r in c.requires:
+        try:
+            if not sp.ev(r):
+                return None, None
+        except Exception:
+            return None, None
+    failures, observed = [], {}
+    call_args = copy.deepcopy(args)
+    try:
+        res = fn(**call_args)
+        if inspect.isgenerator(res):
+            items = []
+            for k, it in enumerate(res):
+                items.append(it)
+                for y in c.yields:
+                    if not sp.ev(y, it=it):
+                        failures.append({"clause": y, "yielded": list(it) if isinstance(it, tuple) else it, "index": k})
+                        break
+                if failures or k > 5000:
+                    break
+            observed = {"yielded": [list(x) if isinstance(x, tuple) else x for x in items[:10]]}
+        else:
+            observed = {"result": list(res) if isinstance(res, (tuple, list)) else res}
+            sp2 = sp_cls(dict(call_args))
+            sp2.env["old"] = lambda x: x
+            for e in c.ensures:
+                if "old(" in e or "fresh(" in e or "at(" in e:
+                    continue          # clauses about the pre-state are not evaluated concretely
+                try:
+                    if not sp2.ev(e, result=res):
+                        failures.append({"clause": e})
+                except (IndexError, KeyError, TypeError) as ex:
+                    failures.append({"clause": e, "observed": f"clause not evaluable: {type(ex).__name__}"})
+            for exc, cond in c.raises:
+                if sp.ev(cond):
+                    failures.append({"clause": f"must raise {exc} when {cond}", "observed": "returned normally"})
+    except TimeoutError:
+        raise
+    except Exception as e:
+        name = type(e).__name__
+        ok = False
+        for x, cond in c.raises:
+            try:
+                ok = ok or (x == name and sp.ev(cond))
+            except Exception:
+                pass
+        ok = ok or name in c.may_raise
+        observed = {"raised": name, "message": str(e)[:200]}
+        if not ok:
+            failures.append({"clause": f"only {[x for x, _ in c.raises] + c.may_raise} may be raised", "observed": name})
+    return failures, observed
+
+
+def search(c, fn, ty, out):
+    """No counter-model from the solver: look for a failing input among small random inputs (bounded, seeded)."""
+    import random
+    import time
+    rnd = random.Random(0)
+    t0 = time.time()
+    tried = 0
+    while time.time() - t0 < 25 and tried < 60000:
+        args = {n: gen_value(t, rnd, ty) for n, t in c.params.items()}
+        if any(isinstance(v, str) and v == "NOGEN" for v in args.values()):
+            out["reason"] = "no generator for some parameter type (object/heap state)"
+            return
+        if any(v is None and not isinstance(c.params[n], ty.Opt) for n, v in args.items()):
+            continue
+        failures, observed = check_once(c, fn, args, Spec)
+        if failures is None:
+            continue
+        tried += 1
+        if failures:
+            out.update({"reproduced": True, "inputs": json.loads(json.dumps(args, default=list)), "observed": observed,
+                        "failures": failures, "found_by": f"bounded search over small inputs ({tried} tried)"})
+            return
+    out["reason"] = f"bounded search over {tried} small inputs found no failing input"
+
+
 def main():
     req = json.load(sys.stdin)
     out = {"reproduced": False, "function": req["function"], "obligation": req["obligation"]}
@@ -87,6 +188,27 @@ def main():
                     c = reg.variant(c, i)
         from pyvc import ty
         simple = (ty._Int, ty._Bool)
+        if req.get("search"):
+            if c.file.startswith("verif:"):
+                out["reason"] = "lemma function (ghost code): nothing to replay"
+            else:
+                mod = importlib.import_module(c.file[:-3].replace("/", "."))
+                fn = mod
+                for part in getattr(c, "source", c.qual).split("."):
+                    fn = getattr(fn, part)
+
+                def alarm(*_):
+                    raise TimeoutError()
+                signal.signal(signal.SIGALRM, alarm)
+                signal.alarm(40)
+                try:
+                    search(c, fn, ty, out)
+                except TimeoutError:
+                    out["reason"] = "bounded search timed out"
+                finally:
+                    signal.alarm(0)
+            print(json.dumps(out, default=str))
+            return
         for n, t in c.params.items():
             ok = isinstance(t, simple) or (isinstance(t, ty.Opt) and isinstance(t.elt, simple)) or \
                 (isinstance(t, ty.Seq) and (isinstance(t.elt, simple) or (isinstance(t.elt, ty.Opt) and isinstance(t.elt.elt, simple))))
